@@ -2,23 +2,279 @@
 
 use crate::{
     engines::query::*,
+    engines::svc::*,
+    ids, keys,
     props::c09::machine_report,
     runner::{CaseReport, Property, Tier},
 };
+use discv5::{
+    verif::{HandlerIn, HandlerOut, RequestBody, RequestId, Response, ResponseBody},
+    NodeAddress, NodeContact, RequestError,
+};
 use proptest::prelude::*;
+use serde::{Deserialize, Serialize};
+use std::collections::{HashMap, HashSet};
 
 pub struct C10;
 
+#[derive(Clone, Debug, PartialEq, Eq, Hash, Serialize, Deserialize)]
+pub enum Case {
+    /// a history of the query state machines (as in C09)
+    Machine(QCase),
+    /// a whole lookup through the public API of a real service behind a scripted handler
+    Lookup(LookupCase),
+}
+
+#[derive(Clone, Debug, PartialEq, Eq, Hash, Serialize, Deserialize)]
+pub enum Ans {
+    /// NODES with up to 4 records picked among the pool records at the requested distances
+    Nodes { picks: Vec<u16>, farthest_first: bool },
+    /// the same answer split into two packets (total 2)
+    NodesTwoPackets { picks: Vec<u16> },
+    /// an empty NODES answer
+    Empty,
+    Fail,
+}
+
+#[derive(Clone, Debug, PartialEq, Eq, Hash, Serialize, Deserialize)]
+pub struct LookupCase {
+    /// pool key whose id is the lookup target
+    pub target: u16,
+    /// pool keys of the peers known (add_enr) when the lookup starts
+    pub known: Vec<u16>,
+    /// how the i-th FINDNODE of the lookup is answered (cyclic)
+    pub script: Vec<Ans>,
+    pub predicate: bool,
+}
+
+const LPOOL: u32 = 240;
+const LBASE: u32 = 1000;
+
+fn lrec(i: u32) -> discv5::Enr {
+    keys::padded_record(LBASE + i % LPOOL, 1, 100)
+}
+
+fn odd_port(e: &discv5::Enr) -> bool {
+    e.udp4().map(|p| p % 2 == 1).unwrap_or(false)
+}
+
+async fn run_lookup(c: &LookupCase, rep: &mut CaseReport) -> Option<(String, String)> {
+    reset_globals();
+    let mut q = Svc::new(SvcConfig { key_idx: 0, ..Default::default() }).await;
+    let target = lrec(c.target as u32 + 7).node_id().raw();
+    let mut learned: HashMap<ids::Id, discv5::Enr> = HashMap::new();
+    for k in c.known.iter().take(8) {
+        let e = lrec(*k as u32);
+        if e.node_id().raw() == target {
+            continue;
+        }
+        if q.d.add_enr(e.clone()).is_ok() {
+            learned.insert(e.node_id().raw(), e);
+        }
+    }
+    if learned.is_empty() {
+        return None;
+    }
+    q.take_outbox();
+    let handle = if c.predicate {
+        tokio::spawn(q.d.find_node_predicate(ids::node_id(&target), Box::new(odd_port), 16))
+    } else {
+        tokio::spawn(q.d.find_node(ids::node_id(&target)))
+    };
+    q.settle().await;
+    let mut contacted: HashSet<ids::Id> = HashSet::new();
+    let mut answered: HashSet<ids::Id> = HashSet::new();
+    let mut n_req = 0usize;
+    let mut idle = 0;
+    let mut closer_learnt_later = false;
+    while idle < 6 && n_req < 400 {
+        let out = q.take_outbox();
+        let reqs: Vec<(NodeContact, RequestId, Vec<u64>)> = out
+            .into_iter()
+            .filter_map(|m| match m {
+                HandlerIn::Request(contact, r) => match r.body {
+                    RequestBody::FindNode { distances } => Some((contact, r.id.clone(), distances)),
+                    _ => None,
+                },
+                _ => None,
+            })
+            .collect();
+        if reqs.is_empty() {
+            if handle.is_finished() {
+                break;
+            }
+            idle += 1;
+            q.settle().await;
+            continue;
+        }
+        idle = 0;
+        for (contact, id, ds) in reqs {
+            let rid = contact.node_id().raw();
+            if !contacted.insert(rid) {
+                return Some(("lookup/peer-contacted-twice".into(), format!("the lookup sent a second FINDNODE to {}", contact.node_id())));
+            }
+            let ans = &c.script[n_req % c.script.len().max(1)];
+            n_req += 1;
+            let na = NodeAddress::new(contact.socket_addr(), contact.node_id());
+            let matching: Vec<discv5::Enr> = (0..LPOOL)
+                .map(lrec)
+                .filter(|e| {
+                    let eid = e.node_id().raw();
+                    eid != rid && eid != q.id && ds.contains(&(ids::log2(&rid, &eid) as u64))
+                })
+                .collect();
+            let pick = |picks: &Vec<u16>| -> Vec<discv5::Enr> {
+                let mut v: Vec<discv5::Enr> = Vec::new();
+                for p in picks.iter().take(4) {
+                    if matching.is_empty() {
+                        break;
+                    }
+                    let e = matching[(*p as usize * matching.len()) >> 16].clone();
+                    if !v.iter().any(|x| x.node_id() == e.node_id()) {
+                        v.push(e);
+                    }
+                }
+                v
+            };
+            let mut packets: Vec<Vec<discv5::Enr>> = match ans {
+                Ans::Fail => {
+                    q.inject(HandlerOut::RequestFailed(id.clone(), RequestError::Timeout)).await;
+                    continue;
+                }
+                Ans::Empty => vec![vec![]],
+                Ans::Nodes { picks, farthest_first } => {
+                    let mut v = pick(picks);
+                    v.sort_by_key(|e| ids::xor(&e.node_id().raw(), &target));
+                    if *farthest_first {
+                        v.reverse();
+                    }
+                    vec![v]
+                }
+                Ans::NodesTwoPackets { picks } => {
+                    let v = pick(picks);
+                    let h = v.len() / 2;
+                    vec![v[..h].to_vec(), v[h..].to_vec()]
+                }
+            };
+            let total = packets.len() as u64;
+            for nodes in packets.drain(..) {
+                for e in &nodes {
+                    let eid = e.node_id().raw();
+                    // a record closer to the target than something already learnt arrives later
+                    if !learned.contains_key(&eid) && learned.keys().any(|l| ids::xor(l, &target) > ids::xor(&eid, &target)) {
+                        closer_learnt_later = true;
+                    }
+                    learned.entry(eid).or_insert_with(|| e.clone());
+                }
+                q.inject(HandlerOut::Response(na.clone(), Box::new(Response { id: id.clone(), body: ResponseBody::Nodes { total, nodes } }))).await;
+            }
+            answered.insert(rid);
+        }
+    }
+    if !handle.is_finished() {
+        q.settle().await;
+    }
+    if !handle.is_finished() {
+        return Some(("lookup/not-finished-although-every-request-got-an-outcome".into(), format!("{n_req} FINDNODEs were answered or failed, nothing is outstanding, and the lookup future is still pending")));
+    }
+    let res = match handle.await {
+        Ok(Ok(v)) => v,
+        Ok(Err(e)) => return Some(("lookup/error".into(), format!("find_node returned {e:?}"))),
+        Err(e) => return Some((format!("panic-in-task/{}", e), "the lookup task panicked".into())),
+    };
+    if let Some(p) = crate::runner::take_panic() {
+        return Some((format!("panic-in-task/{}", p.split(':').take(2).collect::<Vec<_>>().join(":")), p));
+    }
+    // ---- the result as the caller sees it
+    let ids_out: Vec<ids::Id> = res.iter().map(|e| e.node_id().raw()).collect();
+    if ids_out.len() > 16 {
+        return Some(("lookup/too-many-results".into(), format!("{} nodes returned, k = 16", ids_out.len())));
+    }
+    let set: HashSet<ids::Id> = ids_out.iter().copied().collect();
+    if set.len() != ids_out.len() {
+        return Some(("lookup/duplicate-in-result".into(), "a node id occurs twice in the lookup result".into()));
+    }
+    for w in ids_out.windows(2) {
+        if ids::xor(&w[0], &target) >= ids::xor(&w[1], &target) {
+            return Some((
+                "lookup/result-not-in-increasing-distance".into(),
+                format!("the result of the lookup lists {} before {} although the latter is closer to the target ({} results)", ids::hex_id(&w[0]), ids::hex_id(&w[1]), ids_out.len()),
+            ));
+        }
+    }
+    for i in &ids_out {
+        if !answered.contains(i) {
+            return Some(("lookup/result-node-never-answered".into(), format!("{} is in the result but never answered a FINDNODE of this lookup", ids::hex_id(i))));
+        }
+    }
+    if c.predicate {
+        for e in &res {
+            if !odd_port(e) {
+                return Some(("lookup/result-fails-predicate".into(), format!("{} is in the result of a predicate lookup but its record does not satisfy the predicate", e.node_id())));
+            }
+        }
+    }
+    if ids_out.len() < 16 {
+        for l in learned.keys() {
+            if !contacted.contains(l) {
+                return Some((
+                    "lookup/incomplete-without-contacting-all".into(),
+                    format!("{} nodes returned (k = 16), no timeout, and candidate {} was never contacted", ids_out.len(), ids::hex_id(l)),
+                ));
+            }
+        }
+    }
+    q.d.shutdown();
+    rep.class(if c.predicate { "lookup-through-the-service/predicate" } else { "lookup-through-the-service" });
+    rep.count("lookup_findnodes", n_req as u64);
+    rep.count("lookup_results", ids_out.len() as u64);
+    if ids_out.len() >= 2 && closer_learnt_later {
+        rep.class("lookup/closer-node-learnt-after-a-farther-one");
+        rep.nontrivial = true;
+    }
+    if ids_out.len() == 16 {
+        rep.class("lookup/k-results");
+    }
+    None
+}
+
+fn lookup_strategy() -> BoxedStrategy<LookupCase> {
+    let picks = || proptest::collection::vec(any::<u16>(), 0..5);
+    let ans = prop_oneof![
+        8 => (picks(), any::<bool>()).prop_map(|(picks, farthest_first)| Ans::Nodes { picks, farthest_first }),
+        2 => picks().prop_map(|picks| Ans::NodesTwoPackets { picks }),
+        1 => Just(Ans::Empty),
+        2 => Just(Ans::Fail),
+    ];
+    (any::<u16>(), proptest::collection::vec(any::<u16>(), 1..6), proptest::collection::vec(ans, 1..12), prop_oneof![3 => Just(false), 1 => Just(true)])
+        .prop_map(|(target, known, script, predicate)| LookupCase { target, known, script, predicate })
+        .boxed()
+}
+
 impl Property for C10 {
-    type Case = QCase;
+    type Case = Case;
     const ID: &'static str = "C10";
     fn cases(tier: Tier) -> u64 {
         tier.pick(40_000, 3_000_000)
     }
-    fn strategy(tier: Tier) -> BoxedStrategy<QCase> {
-        qcase_strategy(tier.pick(80usize, 160usize))
+    fn strategy(tier: Tier) -> BoxedStrategy<Case> {
+        prop_oneof![
+            40 => qcase_strategy(tier.pick(80usize, 160usize)).prop_map(Case::Machine),
+            1 => lookup_strategy().prop_map(Case::Lookup),
+        ]
+        .boxed()
     }
-    fn run(case: &QCase) -> CaseReport {
+    fn run(case: &Case) -> CaseReport {
+        let case = match case {
+            Case::Machine(c) => c,
+            Case::Lookup(l) => {
+                let mut rep = CaseReport::default();
+                if let Some((s, d)) = run_blocking(run_lookup(l, &mut rep)) {
+                    rep.fail(s, d);
+                }
+                return rep;
+            }
+        };
         let out = run_query_case(case, false, true);
         let mut rep = machine_report(case, false, true);
         let s = out.stats;
@@ -38,7 +294,7 @@ impl Property for C10 {
         rep
     }
     fn rule() -> String {
-        "the C09 machine histories (real FindNodeQuery / PredicateQuery, explicit clock, drain at the end); at the end into_result() is checked: R1 <= num_results ids, pairwise distinct, strictly increasing XOR distance (harness arithmetic); R2 every id was handed out by next() and a success was delivered for it while it was outstanding and before the finish; R3 (predicate variant) every id was reported (initial list or accepted success) with a value satisfying the predicate; R4 if fewer than num_results ids are returned every candidate (first num_results initial ids + ids inside accepted successes) was contacted. Non-trivial = result shorter than num_results with >=1 failure and >=1 result, or exactly num_results results out of more successes.".into()
+        "the C09 machine histories (real FindNodeQuery / PredicateQuery, explicit clock, drain at the end); at the end into_result() is checked: R1 <= num_results ids, pairwise distinct, strictly increasing XOR distance (harness arithmetic); R2 every id was handed out by next() and a success was delivered for it while it was outstanding and before the finish; R3 (predicate variant) every id was reported (initial list or accepted success) with a value satisfying the predicate; R4 if fewer than num_results ids are returned every candidate (first num_results initial ids + ids inside accepted successes) was contacted. One case in 41 is a whole lookup through the public API (Discv5::find_node / find_node_predicate on a real service behind a scripted handler): 1..5 known peers, a pool of 240 signed records, every FINDNODE the lookup emits is answered per script with 0..4 records at the requested distances (sorted towards the target, farthest first, split over two packets, empty) or failed; the Vec<Enr> the caller gets back is checked for <= 16 distinct nodes in strictly increasing distance, every node having answered, predicate satisfied, and completeness when short. Non-trivial = result shorter than num_results with >=1 failure and >=1 result, or exactly num_results results out of more successes; (lookup) >= 2 results and a node closer to the target was learnt after a farther one.".into()
     }
     fn assumptions() -> Vec<String> {
         vec![
